@@ -33,6 +33,13 @@ func (c *Ctx) Emit(caseLine, implLine string) {
 	c.count++
 }
 
+// Begin records the case that is about to run in <out>/current.txt: when running it kills the
+// process (an unrecovered panic of the daemon code = the daemon would crash), the engine reports
+// this case as the concrete failing input.
+func (c *Ctx) Begin(caseLine string) {
+	_ = os.WriteFile(filepath.Join(c.dir, "current.txt"), []byte(caseLine+"\n"), 0644)
+}
+
 func (c *Ctx) Stat(k string) { c.stats[k]++ }
 
 func (c *Ctx) Close() {
